@@ -5,7 +5,7 @@ import re
 from .. import nulls as NL
 from .. import rules_stack as RK
 from .. import rx
-from ..astutil import Guards, src, is_name, is_attr, local_defs, exits_always
+from ..astutil import Guards, src, is_name, is_attr, local_defs, exits_always, alias_map, canon_text
 from ..cg import get_cg
 from ..fold import TT, NotConst, Marker
 from ..model import own_nodes, Cls, FUNC_NODES
@@ -252,6 +252,9 @@ def check_options(ctx):
                 if isinstance(n, ast.Compare) and is_name(n.left, lname) and isinstance(n.ops[0], (ast.In, ast.NotIn)):
                     c = n.comparators[0]
                     ok = isinstance(c, (ast.List, ast.Tuple))
+                    if isinstance(c, (ast.Name, ast.Attribute)):
+                        cv = folder.try_eval(c, vo.mod)
+                        ok = isinstance(cv, (list, tuple))
                     ctx.ob('R7.2', f'f:membership:{key}', f'{vo.mod.relpath}:{n.lineno}',
                            f'the membership test on the raw value of `{key}` uses a list/tuple display (compares with ==, total for any value)', ok,
                            f'`{src(n)}` tests membership in a {type(c).__name__.lower()} display: an unhashable value (list, dict, ...) raises TypeError '
@@ -415,7 +418,8 @@ def check_bounds(ctx, reach):
             if kind is None:
                 continue
             n += 1
-            text = src(x)
+            amap = alias_map(f.node)
+            text = canon_text(src(x), amap)
             loc = f'{f.mod.relpath}:{x.lineno}'
             key = f'{f.short}:{text}'
             ok, why = discharge_bound(ctx, T, N, f, g, x, kind, tries)
@@ -430,10 +434,11 @@ def check_bounds(ctx, reach):
 
 
 def discharge_bound(ctx, T, N, f, g, x, kind, tries):
-    facts = [a for a in g.facts(x) if a[0] != '|']
+    amap = alias_map(f.node)
+    facts = [(canon_text(a[0], amap), a[1]) for a in g.facts(x) if a[0] != '|']
     pos = {e for e, p in facts if p}
     if kind == 'pop':
-        recv = src(x.func.value)
+        recv = canon_text(src(x.func.value), amap)
         idx = src(x.args[0]) if x.args else '-1'
         if f'{recv}[{idx}].is_whitespace' in pos or recv in pos or f'{recv}[{idx}]' in pos:
             return True, 'the same element was just tested / the list is non-empty'
@@ -446,7 +451,7 @@ def discharge_bound(ctx, T, N, f, g, x, kind, tries):
     if kind == 'index()':
         return False, '.index() raises ValueError when the element is missing'
     base = x.value
-    bs = src(base)
+    bs = canon_text(src(base), amap)
     idx = src(x.slice)
     # tuple component of a pair-returning package call
     if isinstance(base, ast.Call):
